@@ -1,3 +1,5 @@
 import GMModel.Scalar
 import GMModel.Vec3
+import GMModel.Util
 import GMModel.Frame
+import GMModel.ExchangeMap
